@@ -55,7 +55,8 @@ Qed.
    or `self` of a mutating method *)
 Definition rtarget (op : rop) : option nat :=
   match op with
-  | RNew d _ _ _ _ | RNewRR d _ _ _ _ _ | RImm d _ | RToRdataset d _ | RCopy d _ | RFunc _ d _ _ => Some d
+  | RNew d _ _ _ _ | RNewRR d _ _ _ _ _ | RImm d _ | RToRdataset d _ | RCopy d _ | RFunc _ d _ _
+  | RFromList d _ _ _ => Some d
   | RAdd r _ _ | RUpdateTtl r _ | RRemove r _ | RDiscard r _ | RPop r | RClear r
   | RInpl _ r _ | RDelItem r _ => Some r
   | RPred _ _ _ | RMatch _ _ _ _ | RFullMatch _ _ _ _ _ _ | RLen _ | RIter _ | RContains _ _
@@ -65,7 +66,8 @@ Definition rtarget (op : rop) : option nat :=
 (* registers that are bound anew (the old object is dropped, not mutated) *)
 Definition rrebind (op : rop) : option nat :=
   match op with
-  | RNew d _ _ _ _ | RNewRR d _ _ _ _ _ | RImm d _ | RToRdataset d _ | RCopy d _ | RFunc _ d _ _ => Some d
+  | RNew d _ _ _ _ | RNewRR d _ _ _ _ _ | RImm d _ | RToRdataset d _ | RCopy d _ | RFunc _ d _ _
+  | RFromList d _ _ _ => Some d
   | _ => None
   end.
 
@@ -154,6 +156,7 @@ Definition gstep (st : list rds) (h : list (list Z)) (op : rop) : list (list Z) 
   match op with
   | RNew d _ _ _ t0 => match assign h d [t0] with Some h' => if ok then h' else h | None => h end
   | RNewRR d _ _ _ _ _ => match assign h d [0] with Some h' => if ok then h' else h | None => h end
+  | RFromList d _ t _ => match assign h d [t] with Some h' => if ok then h' else h | None => h end
   | RImm d r | RCopy d r | RToRdataset d r =>
       match assign h d (hget h r) with Some h' => if ok then h' else h | None => h end
   | RAdd r x (Some t) =>
@@ -324,15 +327,18 @@ Proof.
   rewrite !update_ttl_ttl, E1, E2. reflexivity.
 Qed.
 
-Lemma r_to_rdataset_ttl s x : r_to_rdataset s = Ok x -> ttl x = ttl s.
+Lemma r_from_list_ttl n t xs x : r_from_list n t xs = Ok x -> ttl x = t.
 Proof.
-  unfold r_to_rdataset. destruct (items s) as [|rd0 l]; [discriminate|].
+  unfold r_from_list. destruct xs as [|rd0 l]; [discriminate|].
   set (r0 := update_ttl _ _).
   pose proof (radd_all_ttl (rd0 :: l) r0) as H.
   destruct (radd_all r0 (rd0 :: l)) as [r [[]| |]]; try discriminate.
   intros E; inversion E; subst. cbn [fst] in H. rewrite H. unfold r0.
-  rewrite update_ttl_ttl. reflexivity.
+  rewrite update_ttl_ttl. destruct n; reflexivity.
 Qed.
+
+Lemma r_to_rdataset_ttl s x : r_to_rdataset s = Ok x -> ttl x = ttl s.
+Proof. apply r_from_list_ttl. Qed.
 
 Lemma obs_err_ok {A} (r : res A) : (match obs_err r with E _ => false | _ => true end) = true -> exists a, r = Ok a.
 Proof. destruct r; cbn; try discriminate. eauto. Qed.
@@ -394,6 +400,12 @@ Proof.
                      eapply r_to_rdataset_ttl; eassumption|exact I].
       * destruct (assign h d (hget h r)); exact H.
     + destruct (assign h d (hget h r)); exact H.
+  - (* RFromList *)
+    destruct (r_from_list n t xs) as [x| |] eqn:Er; cbn [fst snd];
+      try (destruct (assign h d [t]); exact H).
+    destruct (assign st d x) as [st'|] eqn:E; cbn [fst snd].
+    + t_assign H; [split; [discriminate|]; cbn; eapply r_from_list_ttl; eassumption|exact I].
+    + destruct (assign h d [t]); exact H.
   - (* RAdd *)
     destruct (nth_error st r) as [s|] eqn:Es; cbn [fst]; [|destruct ottl; exact H].
     unfold is_mutable. destruct (kd s) eqn:Ek; cbn [fst andb]; try (destruct ottl; exact H).
@@ -543,6 +555,7 @@ Definition op_literals (op : rop) : list Z :=
   match op with
   | RNew _ _ _ _ t0 => [t0]
   | RNewRR _ _ _ _ _ _ => [0]
+  | RFromList _ _ t _ => [t]
   | RAdd _ _ (Some t) => [t]
   | RUpdateTtl _ t => [t]
   | _ => []
@@ -612,4 +625,24 @@ Proof.
   destruct (ttl_is_min_from_start ops r s E) as [H1 H2].
   split; [exact H1|]. split; [exact H2|].
   intros t Ht. eapply (hist_get _ _ r t (ttl_literals ops [] [] [] (Forall_nil _))), Ht.
+Qed.
+
+(* ---------- the same frame property for the dns.set.Set machine ---------- *)
+
+Definition starget (op : sop) : option nat :=
+  match op with
+  | SNew d _ | SCopy d _ | SFunc _ d _ _ => Some d
+  | SAdd r _ | SRemove r _ | SDiscard r _ | SPop r | SClear r | SInpl _ r _ | SUpdateList r _
+  | SDelItem r _ | SDelSlice r _ _ _ => Some r
+  | SPred _ _ _ | SLen _ | SIter _ | SContains _ _ | SGet _ _ | SGetSlice _ _ _ _ => None
+  end.
+
+Theorem sstep_frame st op r :
+  starget op <> Some r -> nth_error (fst (sstep st op)) r = nth_error st r.
+Proof.
+  intros Ht.
+  destruct op; cbn [sstep starget] in *; unfold bad;
+    repeat dm; cbn [fst]; try reflexivity;
+    try (apply nth_set_nth_other; congruence);
+    try (eapply nth_assign_other; [eassumption|congruence]).
 Qed.
